@@ -8,7 +8,7 @@ from sa.callgraph import CallGraph
 EXPL = ('Decides the clause "the older/same/newer judgement is computed on numeric components": a provenance-typed lint finds every ordering comparison (<, <=, >, >=, min, max, sorted without key) whose operand is a version string '
         '(Software.version, the regex-extracted other version, first-appeared versions from the table, Timeframe slots) and requires both operands to pass through a numeric key -- a function whose result is a tuple/list of int() applied to the '
         'dot-separated components. With that, the comparison is the lexicographic order on integer tuples: total, antisymmetric and transitive by construction. The patch-suffix comparison may stay lexical but must only be reachable after the numeric parts '
-        'compared equal; the consumers (recommendation filter, between_versions, compatibility line, Timeframe) all go through these two sites. Not decided: behaviour on malformed version strings.')
+        'compared equal; the consumers (recommendation filter, between_versions, compatibility line, Timeframe) all go through these two sites. The version that enters the comparison is the banner's: for OpenSSH, Dropbear and libssh the capture group of the product pattern that becomes Software.version includes the regular language of dotted decimal versions and is included in [0-9.]+ (automata inclusion, shortest counter-example reported). Not decided: behaviour on malformed version strings.')
 
 # expressions that denote version strings, per function (confirmed by reading the regexes / table format)
 VERSION_EXPRS = {
@@ -149,3 +149,33 @@ def run(repo, rep, tier):
                 if any(isinstance(o, ast.Name) and o.id in ('ssh_version', 'v_from', 'v_till', 'version') for o in ops):
                     rep.check('consumers', 'no ad-hoc version ordering outside software/timeframe: %s' % func_id(f), False, n, 'version ordered ad hoc: %s' % unparse(n))
     rep.note('order axioms: with every ordering site comparing integer tuples, the judgement is the lexicographic order on tuples of ints -- total, antisymmetric and transitive by construction; no separate check is needed')
+
+    # ---- rule 4: the version handed to the comparison is the whole dotted number of the banner -----------------------------------
+    # "available in an identified server exactly when its version is numerically at least ..." needs the identified version to be the
+    # banner's: for OpenSSH, Dropbear and libssh the capture group that becomes Software.version must be able to hold every dotted
+    # decimal version (regular-language inclusion \d+(\.\d+)+  <=  group 1) and nothing but digits and dots (what version_key parses).
+    from props import _products as P
+    sp, fams = P.families(repo)
+    rep.saw(sp)
+    served = 0
+    for head, label, numeric in P.SPEC_HEADS:
+        if label not in ('Product.OpenSSH', 'Product.DropbearSSH', 'Product.LibSSH'):
+            continue
+        fam = P.serving(fams, head)
+        if fam is None:
+            rep.note('no product pattern serves software strings starting with %r (C16 reports recognition); nothing to order' % head)
+            continue
+        served += 1
+        ok, cex = P.captures_dotted(fam)
+        rep.check('capture', 'version group of %r can hold every dotted decimal version (for %r)' % (fam.pattern, head), ok, fam.node,
+                  'the version captured from a %s banner is truncated: group 1 of %r cannot hold the version %r, so the identified version (and every older/newer judgement made from it) is wrong for multi-digit components' % (head.rstrip('_-'), fam.pattern, cex if not ok else ''),
+                  stmt='version capture for %s' % head, sample={'rule': 'capture', 'head': head, 'pattern': fam.pattern})
+        ok2, cex2 = P.captures_only_numeric(fam)
+        rep.check('capture', 'version group of %r holds digits and dots only (for %r)' % (fam.pattern, head), ok2, fam.node,
+                  'group 1 of %r can capture %r, which is not a dotted decimal number: the numeric version key cannot order it' % (fam.pattern, cex2 if not ok2 else ''), stmt='numeric-only version capture for %s' % head)
+        rep.evals(2)
+        # the captured group is what becomes .version
+        ret = fam.block.body[-1] if fam.block is not None and fam.block.body else None
+        okv = isinstance(ret, ast.Return) and isinstance(ret.value, ast.Call) and len(ret.value.args) >= 3 and unparse(ret.value.args[2]) == 'mx.group(1)'
+        rep.check('capture', 'family %r passes group 1 as the version' % fam.pattern, okv, ret or fam.node, 'family %r no longer passes mx.group(1) as the version' % fam.pattern, stmt='version argument for %s' % head)
+    rep.floor('capture', 'numerically ordered product heads served by a pattern', served, 3)
